@@ -93,7 +93,12 @@ from .client_callbacks import (
     on_state_msg,
     on_subscribe_home_assistant_state_response,
 )
-from .connection import APIConnection, ConnectionParams, handle_timeout
+from .connection import (
+    CONNECTION_STATE_CLOSED,
+    APIConnection,
+    ConnectionParams,
+    handle_timeout,
+)
 from .core import (
     APIConnectionError,
     BluetoothConnectionDroppedError,
@@ -338,8 +343,14 @@ class APIClient:
         on_stop: Callable[[bool], Coroutine[Any, Any, None]] | None = None,
     ) -> None:
         """Start connecting to the device."""
-        if self._connection is not None:
+        if (
+            self._connection is not None
+            and self._connection.connection_state is not CONNECTION_STATE_CLOSED
+        ):
             raise APIConnectionError(f"Already connected to {self.log_name}!")
+        # A connection that was closed before it ever became connected (for
+        # example disconnect() between start_connection and finish_connection)
+        # never calls on_stop, so it is still attached here: it is dead, replace it
         self._connection = APIConnection(
             self._params,
             partial(self._on_stop, on_stop),
@@ -366,10 +377,12 @@ class APIClient:
 
     async def _execute_connection_coro(self, coro: Awaitable[None]) -> None:
         """Execute a coroutine and reset the _connection if it fails."""
+        connection = self._connection
         try:
             await coro
         except (Exception, asyncio.CancelledError):  # pylint: disable=broad-except
-            self._connection = None
+            if self._connection is connection:
+                self._connection = None
             raise
 
     async def disconnect(self, force: bool = False) -> None:
